@@ -28,6 +28,8 @@ type c03Case struct {
 	Schema  []string `json:"schema"`
 	Ops     string   `json:"operations"`
 	Corpus  string   `json:"corpus,omitempty"`
+	// Bindings (hand-picked programs): extra genqlient.yaml bindings, gql type -> {type, expect_exact_fields, …}
+	Bindings map[string]map[string]string `json:"bindings,omitempty"`
 }
 
 func runC03(c *Ctx) {
@@ -117,6 +119,12 @@ func c03Run(c *Ctx, cs c03Case, gp *gen.Program) {
 				prog.Cfg.Bindings[name] = map[string]string{"type": "string"}
 			}
 		}
+	}
+	for k, v := range cs.Bindings {
+		if prog.Cfg.Bindings == nil {
+			prog.Cfg.Bindings = map[string]map[string]string{}
+		}
+		prog.Cfg.Bindings[k] = v
 	}
 	prog.Cfg.ExportOperations = true
 	out := runGenerate(c.Work, prog, false)
